@@ -40,7 +40,7 @@ TIMELIMIT = 8          # safety net (seconds) for a single tiny LP (they take mi
 # oracles are internal procedures, so the model cannot be driven differentially.  What can be checked on every run is that
 # the text the model was written for is still the text in the tree (comments and white space ignored).
 # --------------------------------------------------------------------------------------
-VERDICT_SOURCE = {"_optimizeRational": "8dffe041ea332754", "_performUnboundedIRStable": "6e3865d9b9b8d845",
+VERDICT_SOURCE = {"_optimizeRational": "3feade23f50fc4f6", "_performUnboundedIRStable": "6e3865d9b9b8d845",
                   "_performFeasIRStable": "0c875e674ca73b05"}
 
 
